@@ -170,7 +170,7 @@ func fnSendRequest(r *http.Request, client *http.Client) (resp *http.Response, e
   trusted
   flag allocates
   requires r != nil
-  ensures err == nil ==> resp != nil && fresh(resp) && resp.Body != nil && ifaceVal(resp.Body) != 0 && rdRem[ifaceVal(resp.Body)] >= 0
+  ensures err == nil ==> resp != nil && fresh(resp) && resp.Body != nil && ifaceVal(resp.Body) != 0 && rdRem[ifaceVal(resp.Body)] >= 0 && resp.Header != nil
 
 // ---- C03: the request sent to the backend (prepareRequest) ----
 ghost var gFwdMethod string
@@ -205,26 +205,51 @@ func (spCtx *serverPoolContext) prepareRequest(svr *Server, ctx stdcontext.Conte
   ghost at call[1] cloneHeader: gClonedFrom := ref(in)
   ghost at call[1] cloneHeader: gCloned := ref(out)
 
+axiom these-header-names-are-canonical: canon("Content-Length") == "Content-Length" && canon("Content-Encoding") == "Content-Encoding" && canon("Vary") == "Vary" && canon("Accept-Encoding") == "Accept-Encoding"
+// C03: a response the proxy compresses itself is labelled gzip, carries no length (neither the header nor
+// http.Response.ContentLength, which Response.FetchPayload reads), and its body is the gzip encoder over the
+// backend's body; a response that is not compressed is left exactly as it was.
 func (c *compression) compress(req *http.Request, resp *http.Response) (compressed bool)
-  trusted
   flag allocates
+  requires c != nil && c.spec != nil && req != nil && resp != nil && resp.Header != nil && resp.Body != nil && ifaceVal(resp.Body) != 0
+  modifies resp.Body, resp.ContentLength, gzFed, gzClosed, rdRem, allof("map<string,[]string>#dom"), allof("map<string,[]string>#card"), allof("map<string,[]string>#val#arr"), allof("map<string,[]string>#val#len"), allof("map<string,[]string>#val#cap"), allof("elem<string>")
+  ensures an-uncompressed-response-is-left-alone: !compressed ==> resp.Body == old(resp.Body) && resp.ContentLength == old(resp.ContentLength) && (forall k string :: ((k in resp.Header) <==> old(k in resp.Header)) && resp.Header[k] == old(resp.Header[k]))
+  ensures bodies-declared-shorter-than-minLength-are-left-alone: old(resp.ContentLength) != -1 && old(resp.ContentLength) < c.spec.MinLength ==> !compressed
+  ensures a-compressed-response-declares-no-length: compressed ==> resp.ContentLength == -1 && !(canon("Content-Length") in resp.Header)
+  ensures a-compressed-response-is-labelled-gzip: compressed ==> (canon("Content-Encoding") in resp.Header) && len(resp.Header[canon("Content-Encoding")]) == 1 && resp.Header[canon("Content-Encoding")][0] == "gzip"
+  ensures the-compressed-body-is-the-gzip-encoder-over-the-backend-body: compressed ==> typeIs(resp.Body, "*readers.GZipCompressReader") && as(resp.Body, "*readers.GZipCompressReader").r == old(resp.Body) && as(resp.Body, "*readers.GZipCompressReader").total == old(rdRem[ifaceVal(resp.Body)]) && gzFed[ref(as(resp.Body, "*readers.GZipCompressReader").gw)] == 0
+  ensures resp.Body != nil && ifaceVal(resp.Body) != 0 && (old(rdRem[ifaceVal(resp.Body)]) >= 0 ==> rdRem[ifaceVal(resp.Body)] >= 0)
+
+func (c *compression) alreadyGziped(resp *http.Response) (yes bool)
   requires resp != nil
-  modifies resp.Body, resp.ContentLength, allof("map<string,[]string>#dom"), allof("map<string,[]string>#card"), allof("map<string,[]string>#val#arr"), allof("map<string,[]string>#val#len"), allof("map<string,[]string>#val#cap"), allof("elem<string>")
-  ensures resp.Body != nil && ifaceVal(resp.Body) != 0 && rdRem[ifaceVal(resp.Body)] >= 0
+  modifies nothing
+  invariant[1] true
+
+func (c *compression) acceptGzip(req *http.Request) (yes bool)
+  requires req != nil
+  modifies nothing
+  invariant[1] true
 
 func (mc *MemoryCache) Store(req *httpprot.Request, resp *httpprot.Response)
   trusted
 
+// collectMetrics hooks the byte count of a streamed response onto stdResp.Body, which it takes to be the
+// CallbackReader buildResponse installed: whatever else wraps the body (the gzip encoder) has to be inside it
+pred streamedBodyIsTheCallbackReader(spCtx *serverPoolContext) := spCtx.resp != nil && spCtx.resp.stream != nil ==> spCtx.stdResp != nil && typeIs(spCtx.stdResp.Body, "*readers.CallbackReader")
+
 func (sp *ServerPool) collectMetrics(spCtx *serverPoolContext)
   trusted
   requires response-present-when-metrics-are-collected: spCtx != nil && spCtx.resp != nil && spCtx.resp.Response != nil
+  requires a-streamed-body-is-the-callback-reader: streamedBodyIsTheCallbackReader(spCtx)
 
 func (sp *ServerPool) buildResponse(spCtx *serverPoolContext) (err error)
   flag allocates
   requires sp != nil && sp.spec != nil && sp.proxy != nil && sp.proxy.spec != nil && spCtx != nil && spCtx.Context != nil
   requires spCtx.stdResp != nil && spCtx.stdResp.Body != nil && ifaceVal(spCtx.stdResp.Body) != 0 && rdRem[ifaceVal(spCtx.stdResp.Body)] >= 0
-  modifies spCtx.resp, spCtx.stdResp.Body, spCtx.stdResp.ContentLength, outResp, outRespTyp, gLimit, rdRem, limUnder, limN, allof("protocols/httpprot.Response.stream"), allof("protocols/httpprot.Response.payload"), allof("map<string,[]string>#dom"), allof("map<string,[]string>#card"), allof("map<string,[]string>#val#arr"), allof("map<string,[]string>#val#len"), allof("map<string,[]string>#val#cap"), allof("elem<string>")
+  requires what-compression-needs: sp.proxy.compression != nil ==> sp.proxy.compression.spec != nil && spCtx.stdReq != nil && spCtx.stdResp.Header != nil
+  modifies spCtx.resp, spCtx.stdResp.Body, spCtx.stdResp.ContentLength, outResp, outRespTyp, gLimit, gzFed, gzClosed, rdRem, limUnder, limN, allof("protocols/httpprot.Response.stream"), allof("protocols/httpprot.Response.payload"), allof("map<string,[]string>#dom"), allof("map<string,[]string>#card"), allof("map<string,[]string>#val#arr"), allof("map<string,[]string>#val#len"), allof("map<string,[]string>#val#cap"), allof("elem<string>")
   ensures built: err == nil ==> spCtx.resp != nil && fresh(spCtx.resp) && spCtx.resp.Response == spCtx.stdResp && outResp == ref(spCtx.resp)
+  ensures the-callback-reader-is-the-outermost-body-reader: err == nil ==> typeIs(spCtx.stdResp.Body, "*readers.CallbackReader")
   ensures failed-build-leaves-the-response-slot: err != nil ==> spCtx.resp == old(spCtx.resp) && outResp == old(outResp)
   ensures pool-limit-else-proxy-limit: gLimit == (sp.spec.ServerMaxBodySize != 0 ? sp.spec.ServerMaxBodySize : sp.proxy.spec.ServerMaxBodySize)
   ghost at call[1] FetchPayload: gLimit := maxPayloadSize
@@ -233,7 +258,7 @@ func (sp *ServerPool) buildFailureResponse(spCtx *serverPoolContext, statusCode 
   flag allocates
   requires spCtx != nil && spCtx.Context != nil
   modifies spCtx.resp, outResp, outRespTyp
-  ensures spCtx.resp != nil && fresh(spCtx.resp) && spCtx.resp.Response != nil && spCtx.resp.Response.StatusCode == statusCode && outResp == ref(spCtx.resp)
+  ensures spCtx.resp != nil && fresh(spCtx.resp) && spCtx.resp.Response != nil && spCtx.resp.Response.StatusCode == statusCode && outResp == ref(spCtx.resp) && spCtx.resp.stream == nil
 
 pred isLB(v interface{}) := v != nil && (typeIs(v, "*roundRobinLoadBalancer") || typeIs(v, "*randomLoadBalancer") || typeIs(v, "*WeightedRandomLoadBalancer") || typeIs(v, "*ipHashLoadBalancer") || typeIs(v, "*headerHashLoadBalancer"))
 pred isSPE(err error, code int, result string) := typeIs(err, "serverPoolError") && as(err, "serverPoolError").code == code && as(err, "serverPoolError").result == result
@@ -242,9 +267,12 @@ func (sp *ServerPool) doHandle(attemptCtx stdcontext.Context, spCtx *serverPoolC
   flag allocates
   requires sp != nil && sp.spec != nil && sp.proxy != nil && sp.proxy.spec != nil && spCtx != nil && spCtx.Context != nil && spCtx.req != nil && spCtx.req.Request != nil && spCtx.req.Request.URL != nil && spCtx.req.Request.Header != nil
   requires balancer-published: isLB(sp.loadBalancer.v)
+  requires compression-is-configured-whole: sp.proxy.compression != nil ==> sp.proxy.compression.spec != nil
+  requires no-response-of-an-earlier-attempt: spCtx.resp == nil
   assume stdlib-context.DeadlineExceeded-is-a-non-nil-error: stdcontext.DeadlineExceeded != nil
-  modifies spCtx.stdReq, spCtx.stdResp, spCtx.resp, outResp, outRespTyp, gFwdMethod, gFwdURL, gFwdBody, gFwdCtx, gClonedFrom, gCloned, gNewReqHost, gLimit, gNoServer, gPrepFailed, gSendFailed, gCtxErr, gBuildFailed, gBackendStatus, rdRem, limUnder, limN, allof("net/http.Response.Body"), allof("net/http.Response.ContentLength"), allof("protocols/httpprot.Response.stream"), allof("protocols/httpprot.Response.payload"), allof("filters/proxy.roundRobinLoadBalancer.counter"), allof("ghostf:filters/proxy.roundRobinLoadBalancer.cnt"), allof("map<string,[]string>#dom"), allof("map<string,[]string>#card"), allof("map<string,[]string>#val#arr"), allof("map<string,[]string>#val#len"), allof("map<string,[]string>#val#cap"), allof("elem<string>")
+  modifies spCtx.stdReq, spCtx.stdResp, spCtx.resp, outResp, outRespTyp, gFwdMethod, gFwdURL, gFwdBody, gFwdCtx, gClonedFrom, gCloned, gNewReqHost, gLimit, gNoServer, gPrepFailed, gSendFailed, gCtxErr, gBuildFailed, gzFed, gzClosed, gBackendStatus, rdRem, limUnder, limN, allof("net/http.Response.Body"), allof("net/http.Response.ContentLength"), allof("protocols/httpprot.Response.stream"), allof("protocols/httpprot.Response.payload"), allof("filters/proxy.roundRobinLoadBalancer.counter"), allof("ghostf:filters/proxy.roundRobinLoadBalancer.cnt"), allof("map<string,[]string>#dom"), allof("map<string,[]string>#card"), allof("map<string,[]string>#val#arr"), allof("map<string,[]string>#val#len"), allof("map<string,[]string>#val#cap"), allof("elem<string>")
   ensures classified: err == nil || typeIs(err, "serverPoolError")
+  ensures a-streamed-body-is-the-callback-reader: streamedBodyIsTheCallbackReader(spCtx)
   ensures no-server-is-503-internalError: gNoServer ==> isSPE(err, 503, "internalError")
   ensures unbuildable-request-is-500-internalError: !gNoServer && gPrepFailed ==> isSPE(err, 500, "internalError")
   ensures unanswered-without-context-error-is-503-serverError: gSendFailed && gCtxErr == nil ==> isSPE(err, 503, "serverError")
@@ -287,13 +315,14 @@ func (sp *ServerPool) buildResponseFromCache(spCtx *serverPoolContext) (hit bool
   trusted
   flag allocates
   modifies spCtx.resp, outResp, outRespTyp
-  ensures hit ==> spCtx.resp != nil && fresh(spCtx.resp) && spCtx.resp.Response != nil && outResp == ref(spCtx.resp)
+  ensures hit ==> spCtx.resp != nil && fresh(spCtx.resp) && spCtx.resp.Response != nil && outResp == ref(spCtx.resp) && spCtx.resp.stream == nil
   ensures !hit ==> spCtx.resp == old(spCtx.resp) && outResp == old(outResp)
 
 func (sp *ServerPool) handle(ctx *context.Context, mirror bool) (result string)
   flag allocates
   flag frame=unchecked
   requires sp != nil && sp.spec != nil && sp.proxy != nil && sp.proxy.spec != nil && isLB(sp.loadBalancer.v)
+  requires compression-is-configured-whole: sp.proxy.compression != nil ==> sp.proxy.compression.spec != nil
   requires ctx != nil && ctx.span != nil && ctxInput(ref(ctx)) != 0
   requires wrappers-are-distinct-objects: sp.retryWrapper == nil || sp.retryWrapper != sp.circuitBreakerWrapper
   assume stdlib-context.DeadlineExceeded-is-a-non-nil-error: stdcontext.DeadlineExceeded != nil
@@ -323,6 +352,7 @@ func (sp *ServerPool) handle(ctx *context.Context, mirror bool) (result string)
     flag allocates
     flag frame=unchecked
     requires sp != nil && sp.spec != nil && sp.proxy != nil && sp.proxy.spec != nil && isLB(sp.loadBalancer.v)
+    requires compression-is-configured-whole: sp.proxy.compression != nil ==> sp.proxy.compression.spec != nil
     requires ctx != nil && ctx.span != nil && spCtx != nil && spCtx.Context == ctx && spCtx.req != nil && spCtx.req.Request != nil && spCtx.req.Request.URL != nil && spCtx.req.Request.Header != nil
     assume stdlib-context.DeadlineExceeded-is-a-non-nil-error: stdcontext.DeadlineExceeded != nil
     ensures one-more-attempt: gAttempts == old(gAttempts) + 1 && gLastErr == err && gAttemptResp == ref(spCtx.resp)
@@ -331,6 +361,7 @@ func (sp *ServerPool) handle(ctx *context.Context, mirror bool) (result string)
     ensures no-response-of-an-earlier-attempt-survives: spCtx.resp == nil || fresh(spCtx.resp)
     ensures unanswered-attempt-leaves-no-response: noAnswer() ==> spCtx.resp == nil
     ensures response-slot-is-what-the-client-sees: spCtx.resp != nil ==> outResp == ref(spCtx.resp)
+    ensures a-streamed-body-is-the-callback-reader: streamedBodyIsTheCallbackReader(spCtx)
     ensures success-has-a-response: err == nil ==> spCtx.resp != nil
     ensures response-is-complete: spCtx.resp != nil ==> spCtx.resp.Response != nil
     ensures classified: err == nil || typeIs(err, "serverPoolError")
@@ -351,8 +382,9 @@ func (sp *ServerPool) handle#handler(c stdcontext.Context) (err error)
   trusted
   flag locals
   flag allocates
-  modifies spCtx.stdReq, spCtx.stdResp, spCtx.resp, spCtx.span, outResp, outRespTyp, gFwdMethod, gFwdURL, gFwdBody, gFwdCtx, gClonedFrom, gCloned, gNewReqHost, gAttempts, gLastErr, gAttemptResp, gInCtx, gDoCtx, gLimit, gNoServer, gPrepFailed, gSendFailed, gCtxErr, gBuildFailed, gBackendStatus, rdRem, limUnder, limN, allof("net/http.Response.Body"), allof("net/http.Response.ContentLength"), allof("protocols/httpprot.Response.stream"), allof("protocols/httpprot.Response.payload"), allof("filters/proxy.roundRobinLoadBalancer.counter"), allof("ghostf:filters/proxy.roundRobinLoadBalancer.cnt"), allof("map<string,[]string>#dom"), allof("map<string,[]string>#card"), allof("map<string,[]string>#val#arr"), allof("map<string,[]string>#val#len"), allof("map<string,[]string>#val#cap"), allof("elem<string>")
+  modifies spCtx.stdReq, spCtx.stdResp, spCtx.resp, spCtx.span, outResp, outRespTyp, gFwdMethod, gFwdURL, gFwdBody, gFwdCtx, gClonedFrom, gCloned, gNewReqHost, gAttempts, gLastErr, gAttemptResp, gInCtx, gDoCtx, gLimit, gNoServer, gPrepFailed, gSendFailed, gCtxErr, gBuildFailed, gzFed, gzClosed, gBackendStatus, rdRem, limUnder, limN, allof("net/http.Response.Body"), allof("net/http.Response.ContentLength"), allof("protocols/httpprot.Response.stream"), allof("protocols/httpprot.Response.payload"), allof("filters/proxy.roundRobinLoadBalancer.counter"), allof("ghostf:filters/proxy.roundRobinLoadBalancer.cnt"), allof("map<string,[]string>#dom"), allof("map<string,[]string>#card"), allof("map<string,[]string>#val#arr"), allof("map<string,[]string>#val#len"), allof("map<string,[]string>#val#cap"), allof("elem<string>")
   ensures short-circuit-makes-no-attempt: err == resilience.ErrShortCircuited ==> gAttempts == old(gAttempts) && spCtx.resp == old(spCtx.resp) && outResp == old(outResp)
+  ensures a-streamed-body-is-the-callback-reader: err != resilience.ErrShortCircuited ==> streamedBodyIsTheCallbackReader(spCtx)
   ensures otherwise-the-outcome-of-the-last-attempt: err != resilience.ErrShortCircuited ==> gAttempts > old(gAttempts) && err == gLastErr && gAttemptResp == ref(spCtx.resp) && (spCtx.resp == nil || fresh(spCtx.resp)) && (noAnswer() ==> spCtx.resp == nil) && (spCtx.resp != nil ==> outResp == ref(spCtx.resp)) && (err == nil ==> spCtx.resp != nil) && (err == nil || typeIs(err, "serverPoolError")) && (err != nil && !noAnswer() ==> spCtx.resp != nil) && (spCtx.resp != nil ==> spCtx.resp.Response != nil)
 
 func (sp *ServerPool) handle#cancel()
